@@ -68,6 +68,20 @@ CLAIMS.update({
     text="Lean theorems (C08_eval, C08_guard_conj, C08_providers, C08_reject_early, C08_end_to_end) prove for every expression tree of any nesting, every valuation and any comparison semantics: the library's closure tree yields Python's value or failure with Python's left-to-right short-circuit read order; a transition is enabled iff every cond entry is truthy and every unless entry falsy, evaluated up to the first failing entry; unparsable text or a name without a provider is rejected at instantiation and never at event time. The operator-spelling rewrite is proved at token level and at character level for well-spaced renderings (C08_rewrite_chars_partial; CPython's tokenizer is not modelled), with witnesses for the repaired defects D8/D9/D22. Tied to /repo by running real machines on grammar-generated guard lists and diffing fired/not-fired, read order and construction exceptions against both the Lean model and CPython's own eval. Precedence itself is CPython's parser (trusted).",
     design="7 C08"),
 })
+CLAIMS.update({
+  "C05": dict(
+    technique="Lean 4 proof (the two engine kinds share every definition; deferred activation = synchronous construction) + twin comparison async vs plain-function machine on the implementation + model correspondence + phase-completion monitor on raw traces",
+    text="Theorems C05_ops_kind_irrelevant, C05_async_construct_activate (async construction followed by explicit activation reaches exactly the configuration of the sync constructor, for every machine and callback behaviour), C05_initial_first (the __initial__ trigger is ahead of the first event in the FIFO queue), plus C02/C03 for the shared engine. That the real async engine awaits every started coroutine before the next phase and yields the same states/phases/arguments/results/exceptions is checked by running each generated machine with every subset pattern of coroutine callbacks (all/half/one, yielding 0-3 times, facade and in-loop drivers) against the same machine written with plain functions and against the model, with a phase-completion monitor on the raw trace. Known findings D19 (deferred activation order) and D10 (coroutine operand in a guard expression) are probed and reported.",
+    design="7 C05"),
+  "C07": dict(
+    technique="Lean 4 proof over an executable model of bind_expected -> BoundArguments -> call protocol + exhaustive small-scope and randomized differential correspondence against the real code and CPython",
+    text="Machine-checked for every well-formed signature, every number of positional arguments and every keyword set: each parameter of a callback called through the library's adapter receives exactly what the Spec assigns (same-named keyword or built-in, positional argument at its index, default, leftover *args/**kwargs) (C07_receive, full); a TypeError arises only for a required parameter without argument or CPython's own positional-only-by-keyword rejection; the eight built-in names always carry the current event's values whatever the user or a forwarded parent **kwargs passes; the binding is independent of the adapter cache's history. Counterexamples are proved for the pre-fix code (D5, D6). Tied to /repo by exhaustive differential execution for all signatures <=4 (thorough <=5) parameters plus random machines in every callback attachment form.",
+    design="7 C07"),
+  "C15": dict(
+    technique="Lean 4 proof over an executable store model of class-body + metaclass elaboration (rewrite congruence, splice simulation for from_.any()), linked to the engine model by per-event candidate views + differential check of rendered source text vs model vs abstract machine",
+    text="Proved for all classes: classes with the same states, event set and per-(state,event) ordered candidates behave identically on every operation history, for all user code and options (C15_behaviour, via tryCands_filter). Proved for all programs and contexts that the to/from_/multi/itself/event=/decorator/States styles elaborate identically (C15_rewrite_anywhere), and that from_.any() equals the explicit from_ over the non-final states under the hypotheses that exclude finding D16 (C15_any_partial); the four D16 shapes have machine-checked negation witnesses. Shared-list, Event(T), placeholder and inheritance equivalences are proved on instances only and exercised by the correspondence (380 machines x ~4.6 source renderings per quick run against the real library and the model).",
+    design="7 C15"),
+})
 NOT_APPLICABLE = {}
 
 def main():
